@@ -184,49 +184,77 @@ pub fn case(plans: &'static [&'static str], mix: Mix, focus: &'static str, max_o
             let plan = plans[pi];
             (Just(plan), any::<u8>(), heap_kb(), 1u8..5, 1u8..4, plan_opts(plan), prop_oneof![3 => Just(0u32), 1 => 1u32..3000], prop::collection::vec(op(mix), 10..max_ops))
         })
-        .prop_map(move |(plan, v, heap_kb, workers, mutators, opts, copy_spin, ops)| Case {
-            plan: plan.to_string(),
-            variant: variant_for(plan, v),
-            heap_kb,
-            dyn_heap: None,
-            workers,
-            mutators,
-            opts,
-            copy_spin,
-            focus: focus.to_string(),
-            ops,
+        .prop_map(move |(plan, v, heap_kb, workers, mutators, mut opts, copy_spin, ops)| {
+            // a quarter of the cases run on the build without `vo_bit` (lazy sweeping, no VO bits), except
+            // for the properties that are about VO bits
+            if !matches!(focus, "C07" | "C08") && (v >> 2) % 4 == 0 {
+                opts.push(("__build".to_string(), "base".to_string()));
+            }
+            Case { plan: plan.to_string(), variant: variant_for(plan, v), heap_kb, dyn_heap: None, workers, mutators, opts, copy_spin, focus: focus.to_string(), ops }
         })
         .boxed()
 }
 
-/// C09: allocate up to a fraction of the heap, drop everything, exhaustive GC; repeated.
+/// C09: allocate up to a fraction of the heap, let everything survive one GC, drop everything, exhaustive GC; repeated.
 pub fn c09_case(long: bool) -> BoxedStrategy<Case> {
     let plans = &COLLECTING_PLANS;
-    (0..plans.len(), any::<u8>(), 1u8..4, 8000u32..24000, if long { 60u32..300 } else { 12u32..40 }, prop::collection::vec((1u8..30, small_extra(), prop_oneof![6 => Just(0u8), 1 => Just(2u8), 1 => Just(6u8)], any::<bool>(), any::<bool>()), 2..6))
-        .prop_map(move |(pi, v, workers, heap_kb, cycles, mix)| {
+    // per mix entry: (objects per chain, payload size, semantics, weak reference?, finalizer?)
+    let size = prop_oneof![
+        6 => (0u32..128).boxed(),
+        3 => (128u32..1200).boxed(),
+        2 => (1200u32..9000).boxed(),
+        // the largest mark-sweep size classes and sizes around the LOS thresholds
+        2 => prop_oneof![Just(8192u32 - 48), Just(16384 - 48), Just(32768 - 48), 57300u32..65480, Just(65488u32)].boxed(),
+    ];
+    (0..plans.len(), any::<u8>(), 1u8..4, 10000u32..24000, if long { 60u32..300 } else { 12u32..40 }, prop::collection::vec((1u8..30, size, prop_oneof![6 => Just(0u8), 1 => Just(2u8), 1 => Just(6u8)], any::<bool>(), any::<bool>()), 2..6), any::<bool>(), 1u8..3)
+        .prop_map(move |(pi, v, workers, heap_kb, cycles, mix, survive_first, mutators)| {
             let plan = plans[pi];
             let mut ops = vec![];
+            let budget_kb = heap_kb as usize / 4;
             for cyc in 0..cycles {
+                let m = (cyc % mutators as u32) as u8 * 128;
+                let mut used_kb = 0usize;
                 for (k, (n, extra, sem, weakish, fin)) in mix.iter().enumerate() {
                     let root = ((k * 37 + 11) % 250) as u8;
                     // sizes vary per cycle so that freed memory is reused at different granularities
-                    let extra = (*extra + (cyc * 8) % 64) as u16;
-                    ops.push(Op::Chain { m: 0, root, n: *n, extra, sem: *sem });
+                    let extra = ((*extra + (cyc * 8) % 64).min(65488)) as u16;
+                    // keep the volume per cycle at about a quarter of the heap
+                    let per = (extra as usize + 48) / 1024 + 1;
+                    let n = (*n as usize).min((budget_kb.saturating_sub(used_kb)) / per);
+                    if n == 0 {
+                        continue;
+                    }
+                    used_kb += n * per;
+                    ops.push(Op::Chain { m, root, n: (n - 1) as u8, extra, sem: *sem });
                     if *weakish {
-                        ops.push(Op::Alloc { m: 0, root: root.wrapping_add(1), extra: 16, nrefs: 2, kind: 2, sem: 0, align_log: 0, offset_w: 0, referent: root });
+                        ops.push(Op::Alloc { m, root: root.wrapping_add(1), extra: 16, nrefs: 2, kind: 2, sem: 0, align_log: 0, offset_w: 0, referent: root });
                     }
                     if *fin {
-                        ops.push(Op::AddFinalizer { m: 0, root });
+                        ops.push(Op::AddFinalizer { m, root });
                     }
                 }
-                ops.push(Op::Churn { m: 0, kb: (heap_kb / 8) as u16, size: 64 + (cyc % 5) as u16 * 24 });
+                ops.push(Op::Churn { m, kb: (heap_kb / 8) as u16, size: 64 + (cyc % 5) as u16 * 24 });
+                if survive_first || cyc % 2 == 0 {
+                    // everything survives one collection before it is dropped
+                    ops.push(Op::Gc { m, force: true, exhaustive: cyc % 4 == 0 });
+                }
                 ops.push(Op::DropAllRoots);
                 ops.push(Op::Gc { m: 0, force: true, exhaustive: true });
                 ops.push(Op::PopFinalized { m: 0, root: 200, n: 7 });
-                ops.push(Op::PopFinalized { m: 0, root: 200, n: 7 });
                 ops.push(Op::DropAllRoots);
+                ops.push(Op::Gc { m: 0, force: true, exhaustive: true });
+                if mutators > 1 && cyc % 5 == 4 {
+                    // mutator churn: destroy and re-bind the second mutator
+                    ops.push(Op::DestroyMutator { m: 64 });
+                    ops.push(Op::BindMutator { m: 64 });
+                }
             }
-            Case { plan: plan.to_string(), variant: variant_for(plan, v), heap_kb, dyn_heap: None, workers, mutators: 1, opts: vec![("full_heap_system_gc".into(), "true".into())], copy_spin: 0, focus: "C09".into(), ops }
+            let mut opts: Vec<(String, String)> = vec![("full_heap_system_gc".into(), "true".into())];
+            if (v >> 2) % 2 == 0 {
+                // lazy sweeping (the default without `vo_bit`)
+                opts.push(("__build".to_string(), "base".to_string()));
+            }
+            Case { plan: plan.to_string(), variant: variant_for(plan, v), heap_kb, dyn_heap: None, workers, mutators, opts, copy_spin: 0, focus: "C09".into(), ops }
         })
         .boxed()
 }
